@@ -7,12 +7,19 @@ import numpy
 from mc import duck as D
 from mc.explore import V, HarnessError, case_key
 
+def seam_guard(ex):
+    """an AttributeError raised BY THE DUCK (an attribute the duck-typed calculator does not carry) is a drift of the
+    harness seam, not a property violation (DESIGN §12)"""
+    if isinstance(ex, AttributeError) and "SimpleNamespace" in str(ex):
+        raise HarnessError(f"duck-typed seam no longer matches the code: {ex}")
+
+
 ID = "C04"
 MOD = "mc.props.c04"
 PAIRS = [(a, b) for a in range(1, 7) for b in range(a, 7)]
 SHEAR = [p for p in PAIRS if p[1] >= 4]
 NONSHEAR = [p for p in PAIRS if p[1] <= 3]
-STRAINS = ["const", "thirds", "field", "near", "near13"]
+STRAINS = ["const", "thirds", "field", "near", "near13", "two-equal", "midpoint"]
 PERMS = list(itertools.permutations(range(3)))
 SPEC = dict(nq=2, na=2, wset="mid", gset="distinct", bset="distinct", weights="increasing",
             tgrid=[0.0, 300.0], vgrid=[280.0, 320.0], pkind="positive", cv="field", gamma_fill="zeros")
@@ -51,6 +58,7 @@ def run_case(case):
     try:
         tl, keys, iso, adi = run_request(duck, strain, pairs)
     except Exception as ex:
+        seam_guard(ex)
         import traceback
         return {"viol": [V(f"c04:raises:{type(ex).__name__}", f"request {pairs} strain {case['strain']}: {ex!r} at {traceback.format_exc(limit=-2).splitlines()[-2].strip()}")],
                 "outcome": "raises"}
@@ -88,6 +96,7 @@ def run_case(case):
             if not nx.is_directed_acyclic_graph(g):
                 viol.append(V("c04:cycle", "dependency graph has a cycle"))
     except Exception as ex:
+        seam_guard(ex)
         raise HarnessError(f"cannot inspect the task list: {ex!r}")
     # (ii) reference value from sam_ref with the implementation's (validated) frames
     frames = {}
@@ -131,6 +140,34 @@ def run_case(case):
             "ref_calls": ref.calls}
 
 
+def run_reuse(case):
+    """one PhononContributionTaskList object: resolve+calculate several times; each result must equal a fresh list's"""
+    from cij.core.tasks import PhononContributionTaskList
+    from cij.util import c_
+    duck, laws, w, t, v = D.build(dict(SPEC))
+    viol = []
+    try:
+        tl = PhononContributionTaskList(duck)
+        for n, (skind, pairs) in enumerate(case["steps"]):
+            strain = D.strain_field(skind, v)
+            keys = [c_(a, b) for a, b in pairs]
+            tl.resolve(strain, keys)
+            tl.calculate()
+            iso, adi = tl.get_isothermal_results(), tl.get_adiabatic_results()
+            f_tl, f_keys, f_iso, f_adi = run_request(duck, strain, [tuple(p) for p in pairs])
+            scale = float(numpy.abs(numpy.asarray(f_iso[f_keys[0]])).max()) + 1e-300
+            for k, fk in zip(keys, f_keys):
+                for name, got, want in (("isothermal", iso.get(k), f_iso[fk]), ("adiabatic", adi.get(k), f_adi[fk])):
+                    if got is None or not numpy.all(numpy.abs(numpy.asarray(got) - numpy.asarray(want)) <= DIFF_TOL * scale):
+                        viol.append(V(f"c04:list-reuse:{name}:{'shear' if k.is_shear else 'nonshear'}",
+                                      f"step {n} of {case['steps']}: c{k.voigt[0]}{k.voigt[1]} {name} on a re-used task list differs from a fresh list's"))
+                        return {"viol": viol, "outcome": viol[0]["sig"]}
+    except Exception as ex:
+        seam_guard(ex)
+        viol.append(V(f"c04:list-reuse:raises:{type(ex).__name__}", f"{case['steps']}: {ex!r}"))
+    return {"viol": viol, "nontrivial": len(case["steps"]) > 1, "outcome": "reuse-ok" if not viol else viol[0]["sig"]}
+
+
 def requests(tier):
     full = list(PAIRS)
     reqs = []
@@ -150,7 +187,7 @@ def requests(tier):
 def explore(ctx):
     ctx.rule = ("mode B: a state is an ordered request list over the 21 keys (a step appends a key); enumerated: every ordered "
                 "sequence of length <=2 (<=3 thorough), the 21 complements, the full set in 22 orders (+210 transpositions "
-                "thorough), x 5 axial-strain fields (incl. two nearly-equal ones at 1e-9 and 1e-13 sitting on the task de-duplication edge), the full set under all 6 axis relabellings x 5 fields; thorough adds "
+                "thorough), x 7 axial-strain fields (incl. two nearly-equal ones at 1e-9 and 1e-13 sitting on the task de-duplication edge, two equal fractions, e1=(e2+e3)/2), the full set under all 6 axis relabellings x 7 fields; ONE task-list object resolved and calculated twice or three times with different strain fields / key sets (every result equal to a fresh list's); thorough adds "
                 "all 2^15 subsets of the shear keys with and without the 6 non-shear keys; every request is resolved and "
                 "calculated on the real task list; oracles: completeness, dependency order, sam_ref value, equality of each "
                 "key's value across ALL explored requests of the same strain field (merging histories only after the "
@@ -174,6 +211,12 @@ def explore(ctx):
             cases.append({"keys": [list(p) for p in NONSHEAR + sub], "strain": "field"})
     results = ctx.run(MOD, "run_case", cases, part="requests", chunksize=8,
                       transitions=sum(len(c["keys"]) for c in cases))
+    keysets = [PAIRS, [(4, 4), (5, 6), (1, 1)], [(1, 5), (6, 6)], NONSHEAR]
+    steps = [(s, [list(p) for p in ks]) for s in ("const", "thirds", "field", "two-equal") for ks in keysets]
+    reuse = [{"steps": [a, b]} for a in steps for b in steps]
+    if not ctx.quick:
+        reuse += [{"steps": [a, b, a]} for a in steps[:8] for b in steps[:8]]
+    ctx.run(MOD, "run_reuse", reuse, part="task-list-reuse", chunksize=4, transitions=sum(len(c["steps"]) for c in reuse))
     # request independence across all explored histories (differential oracle), per strain field
     first = {}
     merged = set()
